@@ -232,6 +232,7 @@ class a_shards_trim_sides:
         yield "cols", cols_of(r) == a.cols
 
 
+_saved2 = {k: _REG[k] for k in (CV + "CompositeCanvas.trim", CV + "CompositeCanvas.trim_end")}  # cc_trim, cc_trim_end (assumed, used by callers)
 _OV = {CV + "CompositeCanvas.rows": real_rows, CV + "CompositeCanvas.cols": real_cols, CV + "Canvas.rows": real_rows, CV + "Canvas.cols": real_cols}
 _INL = ("Canvas.widget_info", "Canvas.translate_coords", "CompositeCanvas._discard_trimmed_cursor")
 
@@ -289,3 +290,10 @@ class real_trim_end:
     def on_raise(old, s, a, exc):
         yield "canvas-error-iff-finalized", not is_none(old._widget_info)
         yield "finalized-canvas-unchanged", both(eq(s.shards, old.shards), s.coords.d == old.coords.d)
+
+
+# callers keep using the protocol-model contracts (CCANVAS fields); the two verification tasks above live under
+# their own registry keys (same target function)
+for _k, _c in ((CV + "CompositeCanvas.trim", real_trim), (CV + "CompositeCanvas.trim_end", real_trim_end)):
+    _REG[_k + "#real-fields"] = _c
+_REG.update(_saved2)
